@@ -44,7 +44,7 @@ Fixpoint num_chars_ok (ae : bool) (s : string) : bool :=
 
 Definition num_body_ok (s : string) : bool :=
   match s with
-  | String c r => is_digit c && num_chars_ok false r && real_dfa s
+  | String c r => (is_digit c || Ascii.eqb c ".") && num_chars_ok false r && real_dfa s
   | EmptyString => false
   end.
 
